@@ -348,6 +348,39 @@ def _cancel_poly_atoms(r):
     return r
 
 
+def is_positive(x):
+    """syntactic sufficient condition for x > 0: a sum of monomials with positive coefficients whose atoms are exponentials
+    (any power), even powers, or big sums of such products carried to a positive... (non-empty range is the caller's fact)"""
+    x = Num.const(x) if not isinstance(x, Num) else x
+    if x.is_zero():
+        return False
+
+    def atom_pos(a):
+        if a.kind == "app" and a.name == "Exp":
+            return True
+        if a.kind == "app" and a.name == "BigSum":
+            dep = a.args[1]
+            return all(c > 0 for c in dep.terms.values()) and all(all(atom_pos(at) for at, _ in m) for m in dep.terms) and _positive_length(a.args[2])
+        return False
+
+    for m, c in x.terms.items():
+        if c <= 0:
+            return False
+        for a, p in m:
+            if not atom_pos(a) and p % 2 != 0:
+                return False
+    return True
+
+
+def _positive_length(n):
+    """length of the form k + 1 with k a non-negative index, or a positive constant: structurally >= 1"""
+    if n.is_const():
+        return n.const_value() > 0
+    c = n.terms.get((), Fraction(0))
+    rest = Num({m: v for m, v in n.terms.items() if m != ()})
+    return c >= 1 and all(v > 0 for v in rest.terms.values()) and all(all(at.kind == "sym" and at.name.startswith("#") or at.sort == "Int" for at, _ in m) for m in rest.terms)
+
+
 def to_fraction(x):
     """x as (numerator, denominator), both polynomials without inverse polynomial atoms and without negative powers"""
     x = Num.const(x) if not isinstance(x, Num) else x
